@@ -112,6 +112,9 @@ JudgeRemoveEmpty(r) ==
     IN IF out # RemoveEmptyMD(in) THEN Verdict(r.id, "REJECT", "Exact", 0, nontriv, in # out, "")
        ELSE IF ~r.flags.input_unchanged THEN
             Verdict(r.id, "REJECT", "InputModified", 0, nontriv, in # out, "")
+       \* the nodes that are kept keep what is attached to them (query metadata, executor references): nothing else changes
+       ELSE IF "annotations_kept" \in DOMAIN r.flags /\ ~r.flags.annotations_kept THEN
+            Verdict(r.id, "REJECT", "AnnotationLost", 0, nontriv, in # out, "")
        ELSE Verdict(r.id, "ACCEPT", "", 0, nontriv, in # out, "")
 
 (* ---- resolve_syntatic_sugar : C06 ---- *)
